@@ -393,6 +393,7 @@ func checkC12(r *Run) {
 	historyBFS(r, msgSp)
 	c12InitNil(r)
 	c12URI(r)
+	c12CallerArrays(r)
 }
 
 // c12InitNil: an object that worked on caller-supplied arrays is initialised without arrays (Init(buf, nil, nil)): from
